@@ -26,6 +26,7 @@ from typing import Any
 from src.analyzers.rust_base import RustBaseAnalyzer
 
 from .config import SRPConfig
+from .heuristics import count_c_style_code_lines
 
 
 class RustSRPAnalyzer(RustBaseAnalyzer):
@@ -167,7 +168,7 @@ class RustSRPAnalyzer(RustBaseAnalyzer):
         start_line = node.start_point[0]
         end_line = node.end_point[0]
         lines = source.split("\n")[start_line : end_line + 1]
-        return sum(1 for line in lines if line.strip() and not line.strip().startswith("//"))
+        return count_c_style_code_lines(lines)
 
     def _find_declaration_list(self, impl_node: Any) -> Any:
         """Find the declaration_list node in an impl block.
